@@ -80,8 +80,8 @@ func (r *run) check(cutFired bool) (nonTrivial bool) {
 		for _, o := range r.ops {
 			switch o.Name {
 			case "register", "register2", "open-port":
-				if o.Done && o.Err != "" && o.Start <= r.hostClosedAt && r.hostClosedAt <= o.End {
-					provoked = true // RegisterPort closes the TNC when the registration fails
+				if o.Done && o.Err != "" && o.Start <= r.hostClosedAt && r.hostClosedAt <= o.End && (p.TNC.RegisterFail || p.TNC.NoCaps) {
+					provoked = true // RegisterPort closes the TNC when the TNC refuses or ignores the registration
 				}
 			}
 		}
@@ -412,6 +412,11 @@ func (r *run) check(cutFired bool) (nonTrivial bool) {
 				sim.Probe("strict-complete-paced")
 			}
 		}
+	}
+	if bytes.HasPrefix(sent, rd) && !relaxed && !linkClosedUnprovoked && r.settled && r.settledRead < r.settledSent &&
+		!(connCloseCalled && connCloseAt <= r.settledAt) && !(tncCloseCalled && tncCloseAt <= r.settledAt) &&
+		!(r.readDone && r.readDoneAt <= r.settledAt) {
+		v.add("read-stream", "undelivered-tail/"+regime, "the reader was waiting in Read at %v with nothing in flight, yet only %d of the %d bytes the TNC had sent for the connection had been returned", r.settledAt, r.settledRead, r.settledSent)
 	}
 	if r.readDone && strings.HasPrefix(r.readErr, "error:") && cooperative && !linkDownBy(r.readDoneAt) &&
 		!(connCloseCalled && connCloseAt <= r.readDoneAt) && !(tncCloseCalled && tncCloseAt <= r.readDoneAt) {
